@@ -534,6 +534,12 @@ class ArgumentParser(argparse.ArgumentParser):
         if self._preprocessing_done:
             return
 
+        # The option strings are generated from class-level settings of FieldWrapper, which another
+        # parser created in the meantime may have overwritten: use the settings of this parser.
+        FieldWrapper.add_dash_variants = self.add_option_string_dash_variants
+        FieldWrapper.argument_generation_mode = self.argument_generation_mode
+        FieldWrapper.nested_mode = self.nested_mode
+
         args = list(args)
 
         wrapped_dataclasses = self._wrappers.copy()
